@@ -17,7 +17,7 @@ import os, sys
 sys.path.insert(0, os.path.dirname(os.path.dirname(os.path.abspath(__file__))))
 import c08_driver
 
-CLAIMED = False
+CLAIMED = True
 MANIFEST = dict(
     level=c08_driver.LEVEL,
     engine="enumx + black-box driver",
